@@ -42,7 +42,8 @@ def to_subtree_impl(
 
     n_nodes = new_id.shape[0]
     ndata = {k: swc_like.get_ndata(k)[mapping].copy() for k in swc_like.keys()}
-    ndata.update(id=new_id, pid=new_pid)
+    ndata[swc_like.names.id] = new_id
+    ndata[swc_like.names.pid] = new_pid
 
     if isinstance(out_mapping, list):
         out_mapping.clear()
